@@ -4,6 +4,7 @@ package main
 // layer's fs.FS answers (look table over the path universe, glob table over the pattern set).
 
 import (
+	"errors"
 	"fmt"
 	"io/fs"
 	"sort"
@@ -132,11 +133,13 @@ func c18Queries() []c18Query {
 	var qs []c18Query
 	for _, p := range c18Paths {
 		qs = append(qs, c18Query{"open", p})
+		qs = append(qs, c18Query{"stat", p})
 		qs = append(qs, c18Query{"readfile", p})
 	}
 	for _, p := range []string{".", "d", "a", "e", "zz"} {
 		qs = append(qs, c18Query{"readdir", p})
 	}
+	qs = append(qs, c18Query{"stat", "."})
 	for _, p := range c18Patterns {
 		qs = append(qs, c18Query{"glob", p})
 	}
@@ -185,6 +188,8 @@ func c18Eval(layers []c18Layer, q c18Query) *Case {
 		st, err := fs.Stat(ov, q.arg)
 		if err != nil {
 			impl = map[string]any{"ok": false}
+		} else if st == nil {
+			impl = map[string]any{"ok": true, "entry": "no-info"}
 		} else if st.IsDir() {
 			// the overlay's Open returns the first layer's directory; list it through the opened file
 			f, err := ov.Open(q.arg)
@@ -215,6 +220,41 @@ func c18Eval(layers []c18Layer, q c18Query) *Case {
 			}
 		}
 		c.Oracle = cmpVerdict("open-first-layer", want, impl)
+	case "stat":
+		// metadata: fs.Stat on the overlay (the loader's Stat, the cache's modification-time check); kind and size come from the first
+		// layer that has the path, and a path in no layer (every layer nil included) is an error that is fs.ErrNotExist
+		st, err := fs.Stat(ov, q.arg)
+		impl := map[string]any{"ok": false}
+		if err == nil && st == nil {
+			impl = map[string]any{"ok": true, "info": "nil"}
+		} else if err == nil {
+			impl = map[string]any{"ok": true, "dir": st.IsDir()}
+			if !st.IsDir() {
+				impl["size"] = int(st.Size())
+			}
+		} else if !errors.Is(err, fs.ErrNotExist) {
+			impl = map[string]any{"ok": false, "err": "not a not-exist error: " + err.Error()}
+		}
+		c.Impl = impl
+		c.Op = false
+		want := map[string]any{"ok": false}
+		if q.arg == "." && nonNil > 0 {
+			// the root exists in every real layer
+			want = map[string]any{"ok": true, "dir": true}
+			c.Key = fmt.Sprintf("stat:.:%d", len(layers))
+		}
+		for i := range layers {
+			if e := lookAt(i, q.arg); e != nil {
+				if f, isFile := e["file"]; isFile {
+					want = map[string]any{"ok": true, "dir": false, "size": len(fmt.Sprint(f))}
+				} else {
+					want = map[string]any{"ok": true, "dir": true}
+				}
+				c.Key = fmt.Sprintf("stat:%s:first=%d/%d", q.arg, i, len(layers))
+				break
+			}
+		}
+		c.Oracle = cmpVerdict("stat-first-layer", want, impl)
 	case "readfile":
 		// the way the loader, the template functions and the markdown package read sources
 		b, err := fs.ReadFile(ov, q.arg)
